@@ -10,4 +10,11 @@ git -C /repo apply $d/patch.diff || { echo "PATCH DOES NOT APPLY"; exit 9; }
 /venv/bin/python -m pytest -q -p no:cacheprovider test 2>&1 | tail -1
 PYTHONPATH=/repo /venv/bin/python $d/demo.py >/dev/null 2>&1; echo "demo with change rc=$?"
 cd /verif && ./check $p | grep -E "VIOLATION|UNDECIDED|SUMMARY|CHECKER" | cut -c1-260 | awk '{a[NR]=$0} END{n=NR; for(i=1;i<=n;i++) if(i<=4||i>n-2) print a[i]}'
+python3 - "$VERIF_OUT/replays/$p" <<'PY'
+import sys, os, json, collections
+d = sys.argv[1]; c = collections.Counter()
+for f in (os.listdir(d) if os.path.isdir(d) else []):
+    r = json.load(open(os.path.join(d, f))); c[r.get("clause") or r.get("obligation") or r.get("kind")] += 1
+print("clauses:", dict(c))
+PY
 git -C /repo checkout -- .
